@@ -139,7 +139,7 @@ let hi2 = lazy (read_bin (!romdir ^ "/HI_ROM_V2.bin"))
 let do_op (o : op) (h : hstate) = run_op (Lazy.force lo1) (Lazy.force hi1) (Lazy.force lo2) (Lazy.force hi2) o h
 
 (* ---- token -> op -------------------------------------------------------- *)
-type tok = Op of op | Run of int | Snap | Final | Note | LoadX of z * z list | WriteN of z * int
+type tok = Op of op | Run of int | Snap | Final | Note | LoadX of z * z list | WriteN of z * int | RunN of int
 
 let parse_tok (t : string) : tok =
   let f = Array.of_list (String.split_on_char ':' t) in
@@ -157,6 +157,7 @@ let parse_tok (t : string) : tok =
   | "st" -> Op OpStep
   | "sx" -> Op OpStepX
   | "run" -> Run (int_of_z (a 1))
+  | "rn" -> RunN (int_of_z (a 1))
   | "dc" -> Op OpDecode
   | "rs" -> Op (OpReset (a 1))
   | "gr" -> Op OpGetRegs
@@ -295,6 +296,25 @@ let run_case (toks : string list) : string =
                  end else h := Some hs;
                  emit "p"
                | _ -> h := h'; emit (obs_str "ld" ob))
+            | RunN n ->
+              (* Dmd::run(n) as the harness calls it: the clock advances by one tick, then n instructions run *)
+              let tick = hs.htick in
+              let cur = ref (Some hs) and res = ref "ok" in
+              (try
+                 for i = 1 to n do
+                   match !cur with
+                   | Some c ->
+                     let c = if i = 2 then { c with htick = Z0 } else c in
+                     let (h', ob) = do_op OpStepX c in
+                     cur := h';
+                     (match ob with ObOk -> () | _ -> res := obs_str "sx" ob; raise Exit)
+                   | None -> raise Exit
+                 done
+               with Exit -> ());
+              (match !cur with
+               | Some c -> h := Some { c with htick = tick }
+               | None -> h := None);
+              emit !res
             | WriteN (addr, n) ->
               let cur = ref (Some hs) and res = ref "ok" in
               (try
